@@ -15,7 +15,7 @@ RULE = (
     "<= 5, both segment log2 within 0.1 of the true levels; per flat chromosome exactly one segment per arm. Non-trivial = a "
     "case holding at least one step; distinct = distinct (levels, directions, sizes, noise seed, method)."
 )
-QUICK = {"examples": 960, "shards": 16, "budget_s": 400, "shrink": False}
+QUICK = {"examples": 1920, "shards": 16, "budget_s": 400, "shrink": False}
 THOROUGH = {"examples": 6400, "shards": 16, "budget_s": 3000}
 ASSUMPTIONS = [
     "a statistical claim decided per generated noise realisation: 0 failures in 12 000 design-time profiles and in every registered run so far; a failure is reported with its seed and is replayable",
